@@ -413,6 +413,21 @@ class netcdf_indexer:
         # Still here? Then do orthogonal indexing.
         # ------------------------------------------------------------
 
+        # Some variables (e.g. `h5netcdf.Variable` and `h5py.Dataset`)
+        # can only be indexed with lists/1-d arrays whose elements
+        # are strictly increasing. So index such a variable with the
+        # sorted unique elements, and restore the requested order and
+        # any repeats afterwards.
+        reorder = {}
+        if not isinstance(data, np.ndarray):
+            index = list(index)
+            for n in axes_with_list_indices:
+                i = np.asanyarray(index[n])
+                if i.size > 1 and not (np.diff(i) > 0).all():
+                    index[n], reorder[n] = np.unique(i, return_inverse=True)
+
+            index = tuple(index)
+
         # Create an index that replaces integers with size 1 slices,
         # so that their axes are not dropped yet (they will be dropped
         # later).
@@ -472,6 +487,11 @@ class netcdf_indexer:
                 index2 = [slice(None)] * ndim
                 index2[n] = index[n]
                 data = data[tuple(index2)]
+
+        # Restore the requested order of any list/1-d array indices
+        # that had to be sorted
+        for n, inverse in reorder.items():
+            data = np.ma.take(data, inverse, axis=n)
 
         # Apply any integer indices that will drop axes
         index3 = [0 if isinstance(i, Integral) else slice(None) for i in index]
